@@ -175,6 +175,25 @@ def run_mc(prop, tier, cov):
     cov['mc'] = {'MCChess': {'distinct_states': r['distinct'], 'states_generated': r['generated'],
                              'bounds': 'start position to depth %s, %s seeds to depth %s' %
                              (('2', '68', '1') if tier == 'quick' else ('3', '68', '2'))}}
+    if prop in ('C02', 'C03', 'C04'):
+        # the implementation-shaped model of make/unmake refines Chess.tla (position, key, remembered positions)
+        EB = 'SPECIFICATION ESpec\nCONSTANTS\n  MaxDepth = %d\n  HistIsSet = %s\n  SeedSet = "%s"\nINVARIANT Refinement\nCHECK_DEADLOCK FALSE\n'
+        runs = [('start', 3 if tier == 'quick' else 4, 'FALSE', True), ('corner', 2 if tier == 'quick' else 3, 'FALSE', True),
+                ('tiny', 4 if tier == 'quick' else 6, 'FALSE', True), ('tiny', 5, 'TRUE', False)]
+        for seedset, depth, legacy, expect_ok in runs:
+            r2 = model_check('EngineBoard.tla', EB % (depth, legacy, seedset), 'engboard-%s-%s-%s-%d' % (prop, seedset, legacy, os.getpid()), timeout=3000)
+            if expect_ok and not r2['ok']:
+                log(r2['out'][-3000:])
+                raise ToolError('EngineBoard.tla: the implementation-shaped make/unmake does not refine Chess.tla (spec bug)')
+            if not expect_ok and r2['ok']:
+                raise ToolError('model sensitivity: legacy HistIsSet produced no counterexample')
+            if expect_ok:
+                cov['states'] += r2['distinct']
+                cov['transitions'] += r2['generated']
+                cov['mc']['EngineBoard %s depth %d' % (seedset, depth)] = {'distinct_states': r2['distinct'], 'states_generated': r2['generated'],
+                                                                           'invariant': 'Refinement (position, key, remembered positions, stack depth)'}
+            else:
+                cov['mc']['EngineBoard legacy HistIsSet'] = 'counterexample found (the pinned HashSet forgets an earlier occurrence on take-back)'
     if prop == 'C01':
         p = model_check('MCPerft.tla', PERFT_CFG % ('FALSE' if tier == 'quick' else 'TRUE'),
                         'mcperft-%d' % os.getpid(), workers=2, timeout=3000)
